@@ -54,6 +54,9 @@ func drawC20(t *rapid.T) C20Case {
 				n = rapid.IntRange(1, 300).Draw(t, "small")
 			}
 			c.Data = gen.Recipe{Segs: []gen.Seg{{Kind: "inc", N: n, A: int(seed % 256)}}}
+		case 5:
+			// one symbol at exactly half of the bytes (UTF-16 text, 16-bit samples): counts of 32768/65536 per block
+			c.Data = gen.Recipe{Segs: []gen.Seg{{Kind: "interleave", N: n, A: int(seed % 3 * 127), Seed: seed}}}
 		case 4:
 			// alternating compressible / incompressible segments
 			rem := n
